@@ -136,22 +136,46 @@ def run_metric(tape, out):
                   'batches': len(run_.consumed), 'schedule': sched}
 
 
+def ad_sim(t, batch_size=1, random_state=None):
+    """Simulator of the adaptive workloads: 4 columns with independent noise."""
+    t = np.asarray(t, dtype=float).reshape(-1, 1)
+    return t * np.array([1.0, -2.0, 0.5, 3.0]) + random_state.normal(size=(batch_size, 4))
+
+
+def ad_sum(y, cols=(0,), gain=1.0):
+    """Summary: selected columns times a gain (very different scales on purpose)."""
+    y = np.atleast_2d(y)
+    out = y[:, list(cols)] * gain
+    return out[:, 0] if len(cols) == 1 else out
+
+
+AD_OBS = np.array([[0.4, -0.7, 0.2, 1.1]])
+
+
 def adaptive_model(elfi, tape, widths):
-    """sim -> k summaries (identity slices) -> AdaptiveDistance; observed given."""
-    spec = {'nodes': [{'name': 't0', 'kind': 'prior', 'dist': 'uniform', 'args': [0.0, 1.0]}],
-            'params': ['t0'], 'sums': [], 'disc': 'd', 'extras': [], 'mode': 'smooth'}
-    sim_cfg = {'node': 'sim', 'kind': 'sim', 'ndraws': 2, 'shape': (), 'mode': 'smooth',
-               'salt': 0.2}
-    spec['nodes'].append({'name': 'sim', 'kind': 'sim', 'parents': ['t0'], 'cfg': sim_cfg,
-                          'observed': np.array([0.4])})
+    """prior -> 4-column simulator -> k summaries (column pickers with gains) -> AdaptiveDistance.
+    Returns (spec-like dict for SamplerRun, model, observed summaries)."""
+    from functools import partial
+    m = elfi.ElfiModel(name='adaptive')
+    t0 = elfi.Prior('uniform', 0.0, 1.0, model=m, name='t0')
+    sim = elfi.Simulator(ad_sim, t0, model=m, name='sim', observed=AD_OBS)
+    sums = []
+    obs = {}
+    col = 0
+    gains = []
     for j, w in enumerate(widths):
+        cols = tuple((col + c) % 4 for c in range(w))
+        col += w
+        gain = tape.choice('gain', [1.0, 25.0, 0.04, 300.0])
+        gains.append(gain)
+        fn = partial(ad_sum, cols=cols, gain=gain)
         nm = 's%d' % j
-        spec['nodes'].append({'name': nm, 'kind': 'sum', 'parents': ['sim'],
-                              'cfg': {'node': nm, 'kind': 'sum', 'shape': (w,) if w > 1 else (),
-                                      'mode': 'mix', 'salt': 0.3 * (j + 1)}})
-        spec['sums'].append(nm)
-    spec['nodes'].append({'name': 'd', 'kind': 'adist', 'parents': list(spec['sums'])})
-    return spec
+        sums.append(elfi.Summary(fn, sim, model=m, name=nm))
+        obs[nm] = fn(AD_OBS)
+    elfi.AdaptiveDistance(*sums, model=m, name='d')
+    spec = {'nodes': [], 'params': ['t0'], 'sums': ['s%d' % j for j in range(len(widths))],
+            'disc': 'd', 'extras': [], 'mode': 'smooth', 'gains': gains}
+    return spec, m, obs
 
 
 def run_adhist(tape, out):
@@ -160,10 +184,8 @@ def run_adhist(tape, out):
     sp.REC.enabled = False
     try:
         widths = [tape.int('width', 1, 3) for _ in range(tape.int('n_sums', 1, 3))]
-        spec = adaptive_model(elfi, tape, widths)
-        model, refs = sp.build_model(elfi, spec)
+        spec, model, obs = adaptive_model(elfi, tape, widths)
         node = model['d']
-        obs = observed_summaries(spec)
         v = np.concatenate([np.atleast_2d(obs[s]) for s in spec['sums']], axis=1)
         rounds = tape.int('rounds', 1, 4)
         rs = np.random.RandomState(tape.int('data_seed', 0, 9999))
@@ -234,7 +256,7 @@ def run_adsim(tape, out):
     elfi = sr.reset_process_state(tape)
     sp.clear_registry()
     widths = [tape.int('width', 1, 2) for _ in range(tape.int('n_sums', 1, 3))]
-    spec = adaptive_model(elfi, tape, widths)
+    spec, model, obs = adaptive_model(elfi, tape, widths)
     meth = tape.choice('method', ['adsmc', 'rejection'])
     bs = tape.int('batch_size', 1, 10)
     if meth == 'adsmc':
@@ -249,7 +271,7 @@ def run_adsim(tape, out):
               'objective': {'n_sim': n + tape.int('n_sim_extra', 1, 40)}}
     sched = sr.gen_schedule(tape)
     sp.REC.reset(None)
-    run_ = sr.SamplerRun(tape, out, spec, wl, sched, quiet=True)
+    run_ = sr.SamplerRun(tape, out, spec, wl, sched, model=model, quiet=True)
     res = run_.sample(wl['n_samples'], **wl['objective'])
     if res is None:
         if not out.inconclusive:
@@ -270,6 +292,7 @@ def run_adsim(tape, out):
         if ws is None or len(ws) != len(res.populations):
             out.violate('scale-of-round', 'missing', reported=None if ws is None else len(ws))
             return
+        v = np.concatenate([np.atleast_2d(obs[s]) for s in spec['sums']], axis=1)
         for r, pop in enumerate(res.populations):
             sd, nrows = std_of(per[r])
             got = np.asarray(ws[r], dtype=float)
@@ -278,6 +301,20 @@ def run_adsim(tape, out):
             if got.shape != sd.shape or not np.allclose(got, 1 / sd, rtol=1e-9, atol=0):
                 out.violate('scale-of-round', 'adsmc', round=r, got=got.tolist(),
                             expected=(1 / sd).tolist(), rows=nrows, batch_size=bs)
+                return
+            # the population's discrepancy column is the newest distance of its own rows
+            U = np.column_stack([np.asarray(pop.outputs[s]) for s in spec['sums']])
+            exp = np.sqrt((((U - v) / sd) ** 2).sum(axis=1))
+            gd = np.asarray(pop.outputs['d'], dtype=float)
+            if gd.shape != exp.shape or not np.allclose(gd, exp, rtol=1e-8, atol=1e-12):
+                aligned = gd.shape == exp.shape and np.allclose(np.sort(gd), np.sort(exp),
+                                                                rtol=1e-8, atol=1e-12)
+                out.violate('newest-distance', 'population-rows-misaligned' if aligned else
+                            'population', round=r, got=gd[:5].tolist(), expected=exp[:5].tolist())
+                return
+            if not np.isclose(float(pop.meta['threshold']), float(exp.max()), rtol=1e-8):
+                out.violate('newest-distance', 'population-threshold', round=r,
+                            reported=float(pop.meta['threshold']), largest=float(exp.max()))
                 return
     else:
         sd, nrows = std_of([b for (_, _, b) in run_.consumed])
@@ -289,20 +326,24 @@ def run_adsim(tape, out):
                             expected=(1 / sd).tolist(), rows=nrows, batch_size=bs)
                 return
         # the reported discrepancy is the newest (adapted) distance of the returned summaries
-        obs = observed_summaries(spec)
         v = np.concatenate([np.atleast_2d(obs[s]) for s in spec['sums']], axis=1)
         U = np.column_stack([np.asarray(res.outputs[s]) for s in spec['sums']])
         exp = np.sqrt((((U - v) / sd) ** 2).sum(axis=1))
         got = np.asarray(res.outputs['d'], dtype=float)
         if got.shape == exp.shape and not np.any(sd == 0):
             if not np.allclose(got, exp, rtol=1e-8, atol=1e-12):
-                out.violate('newest-distance', 'rejection-result', got=got[:4].tolist(),
-                            expected=exp[:4].tolist())
+                aligned = np.allclose(np.sort(got), np.sort(exp), rtol=1e-8, atol=1e-12)
+                out.violate('newest-distance', 'rejection-rows-misaligned' if aligned else
+                            'rejection-result', got=got[:4].tolist(), expected=exp[:4].tolist())
+                return
+            if not all(got[i] <= got[i + 1] for i in range(len(got) - 1)):
+                out.violate('newest-distance', 'rejection-not-ascending', got=got[:6].tolist())
                 return
     sr.check_in_order(out, run_, continuing=(meth != 'rejection'))
     out.abstract = ('adsim', meth, tuple(widths), bs, tuple(run_.monitor.abstract))
     out.nontrivial = out.probes.get('speculative_submit', 0) > 0
-    out.sample = {'kind': 'adsim', 'method': meth, 'summary_widths': widths, 'workload': wl,
+    out.sample = {'kind': 'adsim', 'method': meth, 'summary_widths': widths,
+                  'gains': spec['gains'], 'workload': wl,
                   'schedule': sched, 'consumed_batches': len(run_.consumed)}
 
 
